@@ -31,6 +31,10 @@ type ConcCase struct {
 
 func GenConc(t *rapid.T) *ConcCase {
 	base := Gen(t)
+	for i := range base.Edges {
+		// upcasters shared by concurrent replays must not write to their input
+		base.Edges[i].Scribble = false
+	}
 	c := &ConcCase{Edges: base.Edges, Perm: base.Perm, Events: base.Events, ErrHandler: base.ErrHandler}
 	c.Rep = rapid.SampledFrom([]int{1, 4, 12}).Draw(t, "rep")
 	c.Readers = rapid.IntRange(2, 8).Draw(t, "readers")
